@@ -10,6 +10,7 @@ import (
 	"runtime/metrics"
 	"sort"
 	"strconv"
+	"strings"
 	"sync"
 	"sync/atomic"
 	"testing"
@@ -34,11 +35,12 @@ type envCfg struct {
 var cfg = loadEnv()
 
 func loadEnv() envCfg {
+	perProcess := func(s string) string { return strings.ReplaceAll(s, "%p", strconv.Itoa(os.Getpid())) }
 	c := envCfg{
 		Tier:     getenv("VERIF_TIER", "quick"),
-		OutFile:  os.Getenv("VERIF_OUT"),
+		OutFile:  perProcess(os.Getenv("VERIF_OUT")),
 		FailFile: os.Getenv("VERIF_FAILCASE"),
-		Journal:  os.Getenv("VERIF_JOURNAL"),
+		Journal:  perProcess(os.Getenv("VERIF_JOURNAL")), // %p = pid: native fuzzing runs several worker processes
 		CaseSecs: 180,
 		HeapMiB:  2048,
 	}
@@ -346,6 +348,38 @@ func envFloat(k string, d float64) float64 {
 		}
 	}
 	return d
+}
+
+// fuzzTarget drives the same generator + oracle with Go's native coverage-guided fuzzer (secondary engine, thorough
+// tier only, time-boxed): the fuzzer's bytes are the bit stream rapid's generators draw from (rapid.MakeFuzz), so every
+// input is a structured case. A failing execution writes the structured case to the fail file exactly like the rapid
+// runs; the driver believes it only after the plain replay path fails on it too.
+func fuzzTarget(f *testing.F, p *Property) {
+	startWatchdog()
+	st := newStats(p.ID, p.Rule)
+	// a few deterministic pseudo-random seeds next to the empty input (which decodes to the minimal case)
+	x := uint64(0x9E3779B97F4A7C15)
+	for _, n := range []int{64, 256, 1024, 4096} {
+		b := make([]byte, n)
+		for i := range b {
+			x ^= x << 13
+			x ^= x >> 7
+			x ^= x << 17
+			b[i] = byte(x >> 32)
+		}
+		f.Add(b)
+	}
+	f.Add([]byte{})
+	f.Fuzz(rapid.MakeFuzz(func(rt *rapid.T) {
+		c := p.Gen(rt, st)
+		beginCase(p.ID, c)
+		o := p.Check(c)
+		endCase()
+		if o.Err != nil {
+			writeFailCase(p.ID, c, o.Err)
+			rt.Fatalf("property %s violated: %v\ncase: %s", p.ID, o.Err, mustRaw(c))
+		}
+	}))
 }
 
 // runCase checks one decoded case outside rapid (corpus, replay, exhaustive enumerations).
